@@ -211,6 +211,11 @@ def _make_path_function(jobs, path):
     if path is None:
         # Generate a path function based on the schema detected for jobs.
         path_function = _make_schema_based_path_function(jobs=jobs)
+        # State points that differ only in the type of a value (1 vs '1' vs 1.0)
+        # are printed identically; such paths must not be merged silently.
+        _check_path_function_unique(
+            jobs, path_spec="{{auto}}", path_function=path_function
+        )
 
     elif path is False:
         # Just use the job id as path.
